@@ -26,7 +26,7 @@ var identRe = regexp.MustCompile(`^[A-Za-z_][A-Za-z0-9_]*$`)
 
 // checkProtos re-parses every written .proto with an independent protoparse run and checks identifier
 // legality and uniqueness on the parsed descriptors
-func checkProtos(dir string) string {
+func checkProtos(dir string, extra ...string) string {
 	ents, _ := os.ReadDir(dir)
 	var files []string
 	for _, e := range ents {
@@ -35,7 +35,7 @@ func checkProtos(dir string) string {
 		}
 	}
 	sort.Strings(files)
-	p := protoparse.Parser{ImportPaths: []string{dir}, LookupImport: desc.LoadFileDescriptor}
+	p := protoparse.Parser{ImportPaths: append([]string{dir}, extra...), LookupImport: desc.LoadFileDescriptor}
 	fds, err := p.ParseFiles(files...)
 	if err != nil {
 		msg := err.Error()
